@@ -366,7 +366,7 @@ class CallMixin:
             at = f.attr
             if at in ("get", "items", "keys", "values", "startswith", "endswith", "append", "extend", "add", "pop",
                       "encode", "decode", "join", "format", "copy", "update", "setdefault", "discard", "remove", "clear",
-                      "strip", "rstrip", "lstrip", "lower", "upper", "title", "replace", "split", "rsplit", "splitlines", "removesuffix", "removeprefix") or "method" in self.m.hooks:
+                      "strip", "rstrip", "lstrip", "lower", "upper", "title", "replace", "split", "rsplit", "splitlines", "removesuffix", "removeprefix", "index") or "method" in self.m.hooks:
                 return self.method_call(n, st, old)
         return None
 
@@ -504,6 +504,16 @@ class CallMixin:
             if at == "copy":
                 return recv
         if isinstance(s, tuple) and s[0] == "Seq":
+            if at == "index" and len(n.args) == 1:
+                # xs.index(x): the first position holding x; ValueError when there is none
+                x = self.coerce(self.ev(n.args[0], st, old), s[1], "index")
+                present = T(BOOL, f"(exists ((|q_ix| Int)) (and (>= |q_ix| 0) (< |q_ix| (seq.len {recv.s})) (= (seq.nth {recv.s} |q_ix|) {x.s})))")
+                if not self.branch(present, st):
+                    raise RaiseEx("ValueError", None, n.lineno)
+                i = self.opaque("ix", INT)
+                st.pc.append(f"(and (>= {i.s} 0) (< {i.s} (seq.len {recv.s})) (= (seq.nth {recv.s} {i.s}) {x.s}))")
+                st.pc.append(f"(forall ((|q_ix| Int)) (! (=> (and (>= |q_ix| 0) (< |q_ix| {i.s})) (not (= (seq.nth {recv.s} |q_ix|) {x.s}))) :pattern ((seq.nth {recv.s} |q_ix|))))")
+                return i
             if at == "append" and len(n.args) == 1:
                 x = self.coerce(self.ev(n.args[0], st, old), s[1], "append")
                 # array-like axiomatisation (solvers handle nth-quantifiers far better than seq.++ under quantifiers)
@@ -623,6 +633,8 @@ class CallMixin:
             return True
         if isinstance(target, ast.Attribute) and target.attr in self.m.fields:
             o = self.ev(target.value, st, None)
+            if isinstance(o, T) and o.sort == ("Opt", REF):
+                o = unopt(o)
             if isinstance(o, T) and o.sort == REF:
                 h = self.field(st, target.attr)
                 st.heap[target.attr] = T(h.sort, f"(store {h.s} {o.s} {val.s})")
